@@ -855,6 +855,8 @@ class XFolder(Folder):
             if hasattr(base, "__dict__") and n.attr in vars(base):
                 return getattr(base, n.attr)
             raise NotConst(f"attribute {norm_(n)}")
+        if isinstance(n.value, ast.Name) and n.value.id in ("str", "list", "dict", "tuple", "set", "frozenset", "int", "float", "bytes") and not n.attr.startswith("_"):
+            return getattr(_XB[n.value.id], n.attr)  # unbound method of a builtin type (type=str.strip, key=str.lower); AttributeError is the program's own
         return Folder._f_Attribute(self, n)
 
     @staticmethod
